@@ -552,18 +552,26 @@ mod comp {
     }
 }
 
+fn guarded(name: &str, f: impl FnOnce() -> bool) -> bool {
+    // a panic inside one family must not take the other families (other properties' checks) down with it
+    match catch_unwind(AssertUnwindSafe(f)) {
+        Ok(b) => b,
+        Err(_) => { println!("BOUNDED-FAIL {} input=(see harness) expected=no panic got=panic inside the real crate", name); false }
+    }
+}
+
 fn main() {
     std::panic::set_hook(Box::new(|_| {}));
     let dir = std::env::current_dir().unwrap().join("files");
     let _ = std::fs::create_dir_all(&dir);
     let mut ok = true;
-    ok &= check_negotiate();
-    ok &= check_ranges(&dir);
-    ok &= check_conditionals(&dir);
-    ok &= check_header_map();
-    ok &= check_header_parsers_no_panic();
-    ok &= actix_web::rt::System::new().block_on(async { check_multipart() });
-    ok &= match actix_web::rt::System::new().block_on(ext::check()) { Ok(n) => { println!("BOUNDED-OK extractor_limits cases={}", n); true } Err(e) => { println!("BOUNDED-FAIL extractor_limits {}", e); false } };
-    ok &= match actix_web::rt::System::new().block_on(comp::check()) { Ok(n) => { println!("BOUNDED-OK compress_end_to_end cases={}", n); true } Err(e) => { println!("BOUNDED-FAIL compress_end_to_end {}", e); false } };
+    ok &= guarded("negotiate", check_negotiate);
+    ok &= guarded("file_ranges", || check_ranges(&dir));
+    ok &= guarded("file_conditionals", || check_conditionals(&dir));
+    ok &= guarded("header_map_ops", check_header_map);
+    ok &= guarded("header_parsers_no_panic", check_header_parsers_no_panic);
+    ok &= guarded("multipart_fields", || actix_web::rt::System::new().block_on(async { check_multipart() }));
+    ok &= guarded("extractor_limits", || match actix_web::rt::System::new().block_on(ext::check()) { Ok(n) => { println!("BOUNDED-OK extractor_limits cases={}", n); true } Err(e) => { println!("BOUNDED-FAIL extractor_limits {}", e); false } });
+    ok &= guarded("compress_end_to_end", || match actix_web::rt::System::new().block_on(comp::check()) { Ok(n) => { println!("BOUNDED-OK compress_end_to_end cases={}", n); true } Err(e) => { println!("BOUNDED-FAIL compress_end_to_end {}", e); false } });
     std::process::exit(if ok { 0 } else { 1 });
 }
